@@ -49,6 +49,11 @@ CLAIMED = {
    note="Trusted: as C12.",
    technique="Coq lemmas on stem lists + exhaustive pair decider + differential correspondence",
    ref="6 C13"),
+ "C16": dict(
+   text="Proved in Coq for every string, oracle table and TLD table (closed under the global context): is_url is monotone over ALL pairs of its 16 configurations (any subset of require_protocol / tld_aware / allow_spaces_in_path / only_http_https relaxed keeps acceptance) — the regex part by language inclusion between the generated ASTs (URL_WITH_PROTOCOL_RE ⊆ URL_RE ⊆ RELAXED_URL_RE etc., decided structurally on the regenerated ASTs and proved sound through the regex metatheory: matcher sound + complete w.r.t. the declarative semantics); the answer ignores surrounding whitespace (strip idempotent); with tld_aware an accepted url has a valid TLD as last host label or a special host; every string yielded by urls_from_text matches URL_WITH_PROTOCOL_RE and is then accepted by is_url(require_protocol=True, only_http_https=False). Checked by harness, not proved: yielded strings are substrings in order of appearance without outer whitespace; urls_from_text never raises (the model is total by construction; the tie is correspondence). Tie: model vs implementation under all 16 configurations on a grammar of URL strings and near-misses, and on texts with ASCII / typographic punctuation and complete / truncated markdown links.",
+   note="Trusted: Coq kernel, translator (five URL regex ASTs, TLD list, IRRELEVANT_PUNCTUATION), extraction, driver, harness. Case-insensitive matching beyond ASCII as read in Py/Regex.v (validated by the regex correspondence incl. U+212A, U+017F, U+0130, U+0131). idna oracle for TLD lookups.",
+   technique="Coq language-inclusion proof on generated regex ASTs (verified regex metatheory) + differential correspondence",
+   ref="6 C16"),
 }
 
 NOT_YET = {}
